@@ -24,7 +24,8 @@ def run(chk: Check) -> None:
     ctx = chk.ctx
     wc = prog.module('workchains')
     # what a checkpoint must carry / how it is handed out / what a load may depend on (obligations shared with C07 and C14)
-    from .c07 import load_is_deterministic, persisted_fields
+    from .c07 import load_is_deterministic, persisted_fields, persisted_members_can_be_copied
+    persisted_members_can_be_copied(chk, 'SYM-workchain')
     from .c14 import snapshot_isolation
     persisted_fields(chk)
     load_is_deterministic(chk)
